@@ -1,5 +1,7 @@
 import ParryModel.C04.DriverClosed
 import ParryModel.C04.Composite
+import ParryModel.C04.Driver2D
+import ParryModel.C04.DriverGjk
 /-! C04 protocol handlers: the closed-form / primitive casts (`DriverClosed.lean`) and the composite-shape casts with the
 BVH pruning test (`Composite.lean`). -/
 namespace C04
@@ -7,6 +9,10 @@ namespace C04
 def handler (fn : String) : Option Proto.Handler :=
   match handlerClosed fn with
   | some h => some h
-  | none => handlerComposite fn
+  | none => match handlerComposite fn with
+    | some h => some h
+    | none => match handler2D fn with
+      | some h => some h
+      | none => handlerGjk fn
 
 end C04
